@@ -108,7 +108,14 @@ def plan(tier):
             outside='longer histories; threads (resolver / dropper / awaiter interleavings are the E2 half of C17); shared_future<void> and '
                     'shared_future<T&>; awaiters that do not hold their own handle (documented requirement); operator<< / result_of on a live shared_future'))
     # resolver thread against a thread that copies / awaits / drops the handles (E2, happens-before mode: assertions, lifetime, races)
-    mt = [dict(name='mt_k%d_r%d' % (k, r), nthreads=2, defines=['KIND2=%d' % k, 'RES=%d' % r]) for k in (0, 1, 2, 3) for r in (0, 1)]
+    mt = [dict(name='mt_k%d_r%d' % (k, r), nthreads=2, defines=['KIND2=%d' % k, 'RES=%d' % r]) for k in ((0, 1, 2) if tier == 'quick' else (0, 1, 2, 3)) for r in (0, 1)]
+    if tier == 'quick':
+        # the construct-vs-resolve scenarios (~750 events) take 3 minutes under the happens-before encoding: the quick tier decides their assertion / lifetime / deadlock queries
+        # over all SC interleavings and leaves their race query to the thorough tier
+        units.append(dict(engine='e2', name='sf_mt_ctor', tu='C17mt.cpp', mode='sc', scenarios=[dict(name='mt_k3_r%d' % r, nthreads=2, defines=['KIND2=3', 'RES=%d' % r]) for r in (0, 1)],
+                          opts={'loop_bound': 4, 'rec_bound': 2}, timeout_s=600,
+                          space='thread 1 resolves (value / promise dropped) while thread 2 constructs the shared_future from a promise-taking function that publishes the promise to thread 1 and drops the handle',
+                          bounds='2 threads; all SC interleavings; assertion, lifetime and deadlock queries (the data-race query of these two scenarios is in the thorough tier)', outside='more than 2 threads'))
     units.append(dict(engine='e2', name='sf_mt', tu='C17mt.cpp', mode='hb', scenarios=mt, opts={'loop_bound': 4, 'rec_bound': 2}, timeout_s=600,
                       space='thread 1 resolves (value / promise dropped) while thread 2 drops both handles / copies one and drops all three / subscribes a callback awaiter and drops both handles / constructs the shared_future (its init function publishes the promise, so the resolution can land inside the constructor) and drops it',
                       bounds='2 threads; all SC interleavings; the shared state and the shared_ptr control block are heap objects with lifetime-end events (use after free, double free, leak of the counted value)',
